@@ -76,6 +76,32 @@ CLAIMED["C31"] = dict(
     note="String dimension fully symbolic; expression dimension enumerated / sampled by VERIF_SEED. regexsem is validated against re.fullmatch on concrete strings in every job (self-test, not deciding). The compositional step (table semantics vs. the real walker) is proven per table. A compile() that does not finish in 60 s is a violation. Outside: negated classes (rejected by ppci), code points > 255, nullable scanner tokens, codegen text output.",
     technique=TECH)
 
+CLAIMED["C33"] = dict(
+    level="model_checking", design="§4 C33",
+    text="All paths of the real IntegerSet operations (union, intersection, difference, symmetric_difference and operator forms, contains, cardinality/len/empty/bool, __eq__, __iter__, constructor, merge_overlapping_intervals) for every choice of end points in [-2**31, 2**31). Operands are arbitrary canonical states with (ka,kb) ranges: all ka,kb <= 2 quick; up to (3,2),(2,3),(4,1),(1,4) thorough; the constructor takes arbitrary (overlapping, reversed, duplicated) raw arguments. Per path the solver proves, for a symbolic probe x, that membership in the result equals the boolean combination of memberships in the operands, that the result is canonical, that cardinality equals the inclusion-exclusion count, and that == holds exactly for equal denotations.",
+    note="One inductive step from an arbitrary valid state: the representation invariant (canonical ranges) is assumed for operands and proved for every result. Trusted: z3 (exact integer translation of the linear bit-vector obligations; bit-blasting and cvc5 as fallback), ref/intset.py, the proxy engine. Outside: more ranges per operand, |end points| >= 2**31, __hash__/__repr__, iteration over ranges > 8 elements.",
+    technique=TECH)
+CLAIMED["C18"] = dict(
+    level="model_checking", design="§4 C18",
+    text="All paths of the real HexFile.add_region/check/save/load and HexLine.to_line/from_line for 1-3 non-overlapping regions with symbolic 32-bit base addresses, symbolic contents and start address (lengths up to 70/121 bytes straddling 30-byte chunks and 64 KiB lines, every insertion order). Per path z3 proves: merged regions equal the specification merge of the inputs; every saved record is well-formed (RECLEN, checksum) and the file structure is valid; the text decodes with an independent spec-derived reader (ref/ihex.py) to exactly the saved memory image; load(save(h)) reproduces regions and start address.",
+    note="Trusted: z3, ref/ihex.py (Intel HEX spec rev. A), the proxy engine with its hex/struct/format shims (every path cross-checked against a shim-free concrete run). The file object is a line sink/source. Outside: more than 3 regions, longer regions, foreign files (types 02/03 input), overlap handling.",
+    technique=TECH)
+CLAIMED["C19"] = dict(
+    level="model_checking", design="§4 C19",
+    text="The real write_srecord/SRecord.to_line on a real ObjectFile for a family of code sizes (0..124, 255..257, 1000, 2000 fully symbolic; 4 KiB and 64 KiB+-eps with symbolic windows). Per size z3 proves: every record has correct count and ones'-complement checksum; an S0 header comes first and exactly one matching termination record is last; loading the data records with an independent spec-derived reader (ref/srec.py) yields exactly the code bytes at their offsets, nothing else written.",
+    note="Trusted: z3, ref/srec.py (srec(5) / M68000 PRM app. C), the engine incl. the placeholder mechanism that carries symbolic characters through f-strings and print. For sizes >= 4095 only the first, last and around-64 KiB records are symbolic (fully symbolic 64 KiB images exhausted 12 GB). Outside: code >= 16 MiB, non-zero section addresses (write_srecord ignores Section.address).",
+    technique=TECH)
+CLAIMED["C12"] = dict(
+    level="model_checking", design="§4 C12",
+    text="All paths of the real link()/Linker/Image.data for 64 (thorough 600) object+layout shapes from a stated family (1-3 objects, 1-3 sections, lengths 0-9, symbols, absaddr32 sites, 0-2 memories with SECTION/ALIGN/DEFINESYMBOL/SECTIONDATA, partial and staged links). Within each shape every section byte, memory LOCATION/SIZE, symbol offset and up to two alignments in {1,2,4,8,16} are symbolic. z3 proves per path: byte preservation outside relocation sites, piece alignment, memory containment, disjointness, symbol = address + offset, directive semantics, and CompilerError exactly for duplicate, undefined or overfull inputs.",
+    note="Trusted: z3, the proxy engine, the reference merge/location-counter model ref/linkspec.py (gABI sh_addralign, GNU ld SECTIONS/MEMORY semantics). Outside: shapes beyond the family, non-power-of-two alignments, layout text parsing, libraries, relocation field values beyond absaddr32 (C10/C11).",
+    technique=TECH)
+CLAIMED["C13"] = dict(
+    level="model_checking", design="§4 C13",
+    text="All paths of the real relaxed link (do_relaxations, _apply_relaxation_holes, can_shrink/do_shrink, BcImm11Relocation.apply) for 24 (thorough 96) rvc program shapes with SYMBOLIC memory bases, so every combination of shrink decisions is a path, compared with the same real link without relaxation. z3 proves per path: every jump, branch and address word decoded from the relaxed bytes with an ISA-manual decoder (ref/rvjump.py) reaches the same label, link register unchanged, other bytes unchanged, symbols/sections/relocation entries shifted by exactly the removed bytes, alignment preserved, relaxed link succeeds whenever the unrelaxed one is sound.",
+    note="Trusted: z3, the proxy engine, ref/rvjump.py, the unrelaxed link as oracle. Five genuine relaxation defects (shrink decided on pre-relaxation distances: jump/branch grows out of range and wraps or fails; jal rd becomes c.jal = jal x1; following sections misaligned) are listed as known findings with regions derived from the unrelaxed link. Outside: emulated execution of the relaxed program, > 2 memories / 5 jumps, padding sizes other than the listed boundary fillers.",
+    technique=TECH)
+
 NOT_APPLICABLE = {
     "C04": "property is about native execution of whole gcc/ppci-compiled programs; no x86-64 semantics model is in reach and running binaries is enumeration of concrete runs, not solver-based checking",
     "C06": "dataflow property over uninterpreted instruction semantics: a checker would be tag propagation in which a solver decides nothing",
